@@ -1,0 +1,113 @@
+//go:build verif
+
+package semigroup
+
+// Contracts for package semigroup, checked by /verif/govc.  Comment-only file.
+
+//@ import "github.com/csgura/fp/internal/veriflaws"
+//@ import "github.com/csgura/fp/lazy"
+//
+//@ lemma allDef(a bool, b bool, c bool)
+//@   prop C11
+//@   ensures Eq(All.Combine(a, b), a && b)
+//@   tag conjunction
+//@   ensures Eq(All.Combine(All.Combine(a, b), c), All.Combine(a, All.Combine(b, c)))
+//@   tag assoc
+//
+//@ lemma anyDef(a bool, b bool, c bool)
+//@   prop C11
+//@   ensures Eq(Any.Combine(a, b), a || b)
+//@   tag disjunction
+//@   ensures Eq(Any.Combine(Any.Combine(a, b), c), Any.Combine(a, Any.Combine(b, c)))
+//@   tag assoc
+//
+//@ lemma sumDef[T fp.ImplicitOrd](a T, b T, c T)
+//@   prop C11
+//@   inst int64
+//@   ensures Eq(Sum[T]().Combine(a, b), a + b)
+//@   tag adds
+//@   ensures Eq(Sum[T]().Combine(Sum[T]().Combine(a, b), c), Sum[T]().Combine(a, Sum[T]().Combine(b, c)))
+//@   tag assoc
+//
+//@ lemma productDef[T fp.ImplicitNum](p T, q T, a T, b T, c T)
+//@   prop C11
+//@   inst int64
+//@   ensures Eq(Product[T](p, q).Combine(a, b), a * b)
+//@   tag multiplies
+//@   ensures Eq(Product[T](p, q).Combine(Product[T](p, q).Combine(a, b), c), Product[T](p, q).Combine(a, Product[T](p, q).Combine(b, c)))
+//@   tag assoc
+//
+//@ lemma endoDef[T any](f fp.Endo[T], g fp.Endo[T], h fp.Endo[T], x T)
+//@   prop C11
+//@   ensures Eq(Endo[T]().Combine(f, g)(x), f(g(x)))
+//@   tag composes
+//@   ensures Eq(Endo[T]().Combine(Endo[T]().Combine(f, g), h), Endo[T]().Combine(f, Endo[T]().Combine(g, h)))
+//@   tag assoc
+//
+//@ lemma dualDef[T any](s fp.Semigroup[T], a fp.Dual[T], b fp.Dual[T])
+//@   prop C11
+//@   ensures Eq(Dual(s).Combine(a, b), fp.Dual[T]{GetDual: s.Combine(b.GetDual, a.GetDual)})
+//@   tag flips
+//
+//@ lemma dualLaws[T any](s fp.Semigroup[T], a fp.Dual[T], b fp.Dual[T], c fp.Dual[T])
+//@   prop C11
+//@   requires veriflaws.SemigroupLaws(s)
+//@   ensures Eq(Dual(s).Combine(Dual(s).Combine(a, b), c), Dual(s).Combine(a, Dual(s).Combine(b, c)))
+//@   tag assoc
+//
+//@ lemma optionDef[T any](s fp.Semigroup[T], x T, y T, o fp.Option[T])
+//@   prop C11
+//@   ensures Eq(Option(s).Combine(fp.Some(x), fp.Some(y)), fp.Some(s.Combine(x, y)))
+//@   tag someSome
+//@   ensures Eq(Option(s).Combine(fp.None[T](), o), o)
+//@   tag noneLeft
+//@   ensures Eq(Option(s).Combine(o, fp.None[T]()), o)
+//@   tag noneRight
+//
+//@ lemma optionLaws[T any](s fp.Semigroup[T], a fp.Option[T], b fp.Option[T], c fp.Option[T])
+//@   prop C11
+//@   requires veriflaws.SemigroupLaws(s)
+//@   ensures Eq(Option(s).Combine(Option(s).Combine(a, b), c), Option(s).Combine(a, Option(s).Combine(b, c)))
+//@   tag assoc
+//
+//@ lemma imapDef[A, B any](s fp.Semigroup[A], fab func(A) B, fba func(B) A, x B, y B)
+//@   prop C11
+//@   ensures Eq(IMap(s, fab, fba).Combine(x, y), fab(s.Combine(fba(x), fba(y))))
+//@   tag transports
+//
+//@ lemma imapLaws[A, B any](s fp.Semigroup[A], fab func(A) B, fba func(B) A, x B, y B, z B)
+//@   prop C11
+//@   requires veriflaws.SemigroupLaws(s)
+//@   requires forall a A :: Eq(fba(fab(a)), a)
+//@   requires forall b B :: Eq(fab(fba(b)), b)
+//@   ensures Eq(IMap(s, fab, fba).Combine(IMap(s, fab, fba).Combine(x, y), z), IMap(s, fab, fba).Combine(x, IMap(s, fab, fba).Combine(y, z)))
+//@   tag assoc
+//
+//@ lemma ptrDef[T any](s fp.Semigroup[T], a *T, b *T)
+//@   prop C11
+//@   ensures Eq(Ptr(lazy.Done(s)).Combine(nil, b), b)
+//@   tag nilLeft
+//@   ensures Eq(Ptr(lazy.Done(s)).Combine(a, nil), a)
+//@   tag nilRight
+//@   ensures a != nil && b != nil ==> Ptr(lazy.Done(s)).Combine(a, b) != nil && Eq(*Ptr(lazy.Done(s)).Combine(a, b), s.Combine(*a, *b))
+//@   tag bothPresent
+//
+//@ lemma evalDef[T any](s fp.Semigroup[T], x T, y T)
+//@   prop C11
+//@   ensures Eq(Eval(s).Combine(lazy.Done(x), lazy.Done(y)).Get(), s.Combine(x, y))
+//@   tag combinesValues
+//
+//@ lemma evalLaws[T any](s fp.Semigroup[T], x T, y T, z T)
+//@   prop C11
+//@   requires veriflaws.SemigroupLaws(s)
+//@   ensures Eq(Eval(s).Combine(Eval(s).Combine(lazy.Done(x), lazy.Done(y)), lazy.Done(z)).Get(), Eval(s).Combine(lazy.Done(x), Eval(s).Combine(lazy.Done(y), lazy.Done(z))).Get())
+//@   tag assoc
+//
+//@ lemma ptrLaws[T any](s fp.Semigroup[T], a *T, b *T, c *T)
+//@   prop C11
+//@   requires veriflaws.SemigroupLaws(s)
+//@   ensures (Ptr(lazy.Done(s)).Combine(Ptr(lazy.Done(s)).Combine(a, b), c) == nil) == (Ptr(lazy.Done(s)).Combine(a, Ptr(lazy.Done(s)).Combine(b, c)) == nil)
+//@   tag assocNil
+//@   ensures Ptr(lazy.Done(s)).Combine(Ptr(lazy.Done(s)).Combine(a, b), c) != nil ==>
+//@     Eq(*Ptr(lazy.Done(s)).Combine(Ptr(lazy.Done(s)).Combine(a, b), c), *Ptr(lazy.Done(s)).Combine(a, Ptr(lazy.Done(s)).Combine(b, c)))
+//@   tag assocTarget
